@@ -241,3 +241,60 @@ def run_p5(all_facts, run, prop="C18"):
                                 key, nb, d[0], d[1][0], list(d[1][1]), ref_cfg, rfn["file"], list(d[2][1]), cfg, fn["file"]),
                             config=cfg, site="%s:%s" % (fn["file"], fn["line"]), prop=prop))
     return n
+
+
+# ---------------------------------------------------------------------------
+# P6: siblings that call the same set of own-type methods call each of them equally often
+# ---------------------------------------------------------------------------
+
+def _own_calls(facts):
+    import collections
+    out = {}
+    for fn in facts.fns.values():
+        adt = norm_name(fn.get("self_adt") or "").split("::")[-1]
+        if not norm_name(fn["name"]).startswith("crrl::backend::") or not adt or fn["kind"] == "Closure":
+            continue
+        body = Body(fn)
+        c = collections.Counter()
+        for bi in body.reach:
+            t = body.blocks[bi]["t"]
+            if t[0] == "call" and t[1].get("l"):
+                cal = facts.fns.get(t[1].get("id"))
+                if cal is not None and norm_name(cal.get("self_adt") or "").split("::")[-1] == adt:
+                    c[cal["item"]] += 1
+        out[(adt, fn["item"], fn.get("trait") or "")] = (c, fn)
+    return out
+
+
+def run_p6(all_facts, run, prop="C18"):
+    """The same function of the same type in two backends (different source files): when both call the same set of the
+    type's own methods, the number of call sites per method must agree -- a dropped `set_cond` / `iszero` fix-up in one
+    backend is a disagreement between siblings.  Reviewed exceptions: tables/apiparity.json p6_exceptions."""
+    tab = load_table()
+    exc = [re.compile(x["key"]) for x in tab.get("p6_exceptions", [])]
+    ref_cfg = "x64" if "x64" in all_facts else sorted(all_facts)[0]
+    ref = _own_calls(all_facts[ref_cfg])
+    n = 0
+    for cfg, f in sorted(all_facts.items()):
+        if cfg == ref_cfg:
+            continue
+        for k, (c, fn) in sorted(_own_calls(f).items()):
+            if k not in ref:
+                continue
+            rc, rfn = ref[k]
+            if rfn["file"] == fn["file"] or set(rc) != set(c) or not c:
+                continue
+            n += 1
+            key = "%s::%s" % (k[0], k[1])
+            if rc == c or any(p.fullmatch(key) for p in exc):
+                run.oblige()
+                continue
+            diff = {x: (rc[x], c[x]) for x in rc if rc[x] != c[x]}
+            run.oblige(ok=False)
+            run.add(Finding("P6", "%s|%s" % (key, ",".join(sorted(diff))),
+                            "apiparity P6: sibling implementations of %s call the same own-type methods, but not equally often: %s "
+                            "(call sites in %s [%s] vs %s [%s])" % (
+                                key, ", ".join("%s %d vs %d" % (x, a, b_) for x, (a, b_) in sorted(diff.items())),
+                                ref_cfg, rfn["file"], cfg, fn["file"]),
+                            config=cfg, site="%s:%s" % (fn["file"], fn["line"]), prop=prop))
+    return n
